@@ -29,7 +29,9 @@ RULE = ('JSON: dictionaries with int (incl. negative, zero) and non-integer-like
         'quotes, a tab in .tsv files) with missing fields and fully empty rows, both delimiters, random integers, '
         'floats (float / float32 / float64; exact ties of %.4f included) and random string cells that int()/float() '
         'reject incl. tabs, commas, quotes; two-column cluster tables with negative and large ids and mixed value '
-        'kinds; the number grammar of _try_make_number on random strings; the csv module on random records; '
+        'kinds; the number grammar of _try_make_number on random strings incl. the Unicode decimal digits and white space '
+        'int() / float() convert first (the tables of the model compared with the real int() over ALL code points: op uniclass); '
+        'look-alikes int() rejects (superscripts, circled digits, zero-width space) inside string cells; the csv module on random records; '
         'parameter files with scalars, lists and tuples, quotes and backslashes inside lists, upper-case names. '
         'non-trivial = at least one array or nested container (JSON) / at least two rows (tables)')
 ASSUMPTIONS = ['json / base64 / repr of floats are transport: exercised through the real libraries here, hypotheses in '
@@ -464,6 +466,19 @@ def impl(case):
             return dict(text=text, field=f, back=[[k, py_enc(v)] for k, v in back.items()], meta=meta)
         if op == 'number':
             return [py_enc(M._try_make_number(x)) for x in case['strings']]
+        if op == 'uniclass':
+            # which non-ASCII characters the real _try_make_number takes for a decimal digit (alone: an int) / for white
+            # space (in front of '7': 7), over ALL code points
+            digits, spaces = [], []
+            for c in range(128, 0x110000):
+                if 0xD800 <= c <= 0xDFFF:
+                    continue
+                v = M._try_make_number(chr(c))
+                if type(v) is int:
+                    digits.append([c, v])
+                elif M._try_make_number(chr(c) + '7') == 7:
+                    spaces.append(c)
+            return dict(digits=digits, spaces=spaces)
         if op == 'csv':
             # the csv module called the way _misc.py calls it (transport contract of the model)
             import csv
@@ -531,6 +546,8 @@ def model_query(case, impl_res):
         return dict(p=PID, op='simple', field=case['field'], data=data, tsv=case['ext'] == 'tsv', impl_text=text)
     if case['op'] == 'number':
         return dict(p=PID, op='number', strings=case['strings'])
+    if case['op'] == 'uniclass':
+        return dict(p=PID, op='uniclass')
     if case['op'] == 'csv':
         return dict(p=PID, op='csv', rows=case['rows'], tsv=case['tsv'], impl_text=text)
     if case['op'] == 'params':
@@ -661,6 +678,12 @@ def judge(case, impl_res, ans):
             bad = [(x, r, e) for x, r, e in zip(case['strings'], ok, exp) if r != e]
             return 'CORR: _try_make_number differs from the model on %s' % bad[:3]
         return None
+    if op == 'uniclass':
+        if ok['digits'] != m['digits'] or ok['spaces'] != m['spaces']:
+            dd = [x for x in ok['digits'] if x not in m['digits']] + [x for x in m['digits'] if x not in ok['digits']]
+            ss = sorted(set(ok['spaces']) ^ set(m['spaces']))
+            return 'CORR: the Unicode digit / white-space tables of the model differ from int() / float(): digits %s spaces %s' % (dd[:5], ss[:5])
+        return None
     if op == 'csv':
         if m['back'] != case['rows']:
             return 'MACHINERY: csv model does not round-trip its own text (contradicts the theorem)'
@@ -682,13 +705,22 @@ def nontrivial(case):
         return any(v['t'] in ('arr', 'list', 'dict') for k, v in case['dict'])
     if case['op'] == 'json_env':
         return any(v['t'] in ('arr', 'list', 'dict') for d in case['dicts'] for k, v in d)
-    if case['op'] in ('number', 'jsonstr'):
+    if case['op'] in ('number', 'jsonstr', 'uniclass'):
         return True
     return len(case.get('rows', case.get('data', []))) >= 2
 
 
 def tally(rep, case, impl_res, ans):
     rep.count('op:' + case['op'])
+    if case['op'] == 'number':
+        for x in case['strings']:
+            if any(ord(c) > 127 and (c.isdecimal() or c.isspace()) for c in x):
+                rep.count('number:unicode_digit_or_space')
+                if isinstance(impl_res.get('ok'), list) and impl_res['ok'][case['strings'].index(x)][0] != 'str':
+                    rep.count('number:unicode_numeric_literal')
+    if case['op'] == 'uniclass' and isinstance(impl_res.get('ok'), dict):
+        rep.count('uniclass:decimal_digits', len(impl_res['ok']['digits']))
+        rep.count('uniclass:white_space', len(impl_res['ok']['spaces']))
     if case.get('stale') and case['op'] in ('json', 'tsv', 'simple', 'params'):
         rep.count('path_held_other_contents_read_before')
     if case['op'] == 'jsonstr' and isinstance(impl_res.get('ok'), list) and isinstance(ans.get('ok'), dict):
@@ -763,6 +795,8 @@ def classify(case, impl_res, ans, why):
 
 
 def shrink(case):
+    if case['op'] == 'uniclass':
+        return
     key = {'json': 'dict', 'json_env': 'dicts', 'jsonstr': 'strings', 'tsv': 'rows', 'simple': 'data', 'params': 'data', 'number': 'strings', 'csv': 'rows'}[case['op']]
     v = case[key]
     if case['op'] == 'json_env' and len(v) > 2:
@@ -786,7 +820,13 @@ NUMBERISH = ['1e', '--', 'e5', '+3', ' 2', '1_0', '1.', '.5', 'nan', 'inf', '-In
              '1d5', '0b1', '1j', '-.5', '+.5e+2', '5.', '5.e', '1e-0', '00.0', '-00', '1_.5', '._5', 'Inf', 'iNfInItY',
              'infinity_', 'na n', '1e5 ', ' \t-12\r\n', '12abc', 'abc12', '1,5', '1\t2', '"5"', "'5'", '1e400', '-1e-400',
              '123456789012345678901234567890', '0.1e1', '1.0000', '-0.0000', '\x0b3', '3\x0b\x0c', '3-', '3+4', '3e4e5', '..1']
-CELL_ALPHABET = list('abcxyzQ 09.-+e_,\t"\'#') + ['é', 'ß', 'ab', 'inf', 'nan', '1', '""', ', ']
+CELL_ALPHABET = list('abcxyzQ 09.-+e_,\t"\'#') + ['é', 'ß', 'ab', 'inf', 'nan', '1', '""', ', '] + \
+    ['\u0663', '\uff11', '\xa0', '\u2003', '\xb2', '\u2460', '\u200b']      # Unicode digits / spaces int() accepts, and look-alikes it rejects
+# strings with the Unicode decimal digits and white space that int() / float() convert before parsing
+NUMBERISH_U = ['\u0661\u0662', '\uff11.\uff15', '1\u0662', '\xa012', '12\x85', '\u20031e5\u3000', '\u06f1_\u06f2', '\xb2', '\u2460', '\u0b72',
+               '\U0001d7ce', '\u3007', '-\u0967', '1e\u0663', '\u2002inf', '\u200b12', '\u180e12', '\ufeff12', 'na\u0274', '\x1c12', '12\x1f',
+               '\u0661.\u0662e-\u0663', '\U0001e950\U0001e951', '\u0e51\u0e52\u0e53', '+\uff10', '\u0661 \u0662', '\u2028-5\u2029', '\u202f1_0\u205f',
+               '\u1680.5', '\uff0d1', '\uff11\uff45\uff15', 'in\uff46', '\u0660x', '\u0661,\u0662', '\U0001fbf0\U0001fbf9', '\ua9d0']
 
 
 def rand_text(rng, nonempty=True):
@@ -913,10 +953,14 @@ def gen(tier, rng):
         yield dict(p=PID, op='json', dict=rand_entries(rng), stale=rng.random() < .3)
     # the number grammar of _try_make_number
     yield dict(p=PID, op='number', strings=NUMBERISH)
+    yield dict(p=PID, op='number', strings=NUMBERISH_U)
+    yield dict(p=PID, op='uniclass')
     for _ in range(60 if q else 2000):
         yield dict(p=PID, op='number',
-                   strings=[''.join(rng.pick(list('0123456789') * 2 + list('+-._eE ') + ['inf', 'nan', 'a', '\t', 'in', 'INF', 'x', '__'])
-                                    for _ in range(rng.randrange(0, 7))) for _ in range(25)])
+                   strings=[''.join(rng.pick(list('0123456789') * 2 + list('+-._eE ') + ['inf', 'nan', 'a', '\t', 'in', 'INF', 'x', '__'] +
+                                             (['\u0663', '\uff11', '\u0967', '\U0001d7d2', '\xa0', '\u2003', '\x85', '\xb2', '\u200b', '\uff0e', '\x1c']
+                                              if uni else []))
+                                    for _ in range(rng.randrange(0, 7))) for uni in [rng.random() < .5] for _ in range(25)])
     # the csv transport contract (the csv module called as _misc.py calls it)
     for _ in range(150 if q else 3000):
         rows = [[rand_text(rng, nonempty=False) for _ in range(rng.randrange(0, 4))] for _ in range(rng.randrange(0, 5))]
